@@ -30,7 +30,9 @@ SPEC = dict(
 PINNED = [{"kind": "lib1", "p": "YYYY.MAJOR-MINOR", "state": {"year_y": 2021, "major": 98, "minor": 2}}]
 
 NUMERIC = "YYYY|YY|0Y|GGGG|GG|0G|Q|MM|0M|DD|0D|JJJ|00J|WW|0W|UU|0U|VV|0V|MAJOR|MINOR|PATCH|BUILD|BLD|NUM|INC0|INC1"
-DASH_NUM_RE = re.compile(r"-\[?(?:" + NUMERIC + ")")
+# any separator that _convert_to_pep440 strips (everything outside [a-zA-Z0-9.!\[\]]: '-', '_', '+', ...) directly
+# before a numeric part
+DASH_NUM_RE = re.compile(r"[^a-zA-Z0-9.!\[\]\\]\[?(?:" + NUMERIC + ")")
 PADDED = ("0Y", "0G", "0M", "0D", "00J", "0W", "0U", "0V", "BUILD")
 
 
@@ -52,7 +54,7 @@ def classify(p, what, mods=None, state=None):
         # replaced by a dot passes every clause
         if mods is None or state is None:
             return "dash_before_numeric_part"
-        p2 = re.sub(r"-(\[?(?:" + NUMERIC + "))", r".\1", p)
+        p2 = re.sub(r"[^a-zA-Z0-9.!\[\]\\](\[?(?:" + NUMERIC + "))", r".\1", p)
         try:
             v2 = ref.render(ref.parse_pattern(p2), state)
             probe = _Probe()
